@@ -153,6 +153,21 @@ CLAIMED = {
              "tables are data files in a fixed format and are read with regular expressions (row counts cross-checked with clang's enum "
              "jetName / TypeNamesForJets). Core CMRs and costs have no C counterpart and are not compared (as the property says).",
         design="3/C14"),
+    "C15": dict(
+        technique="provenance of every field of every struct literal and of same-typed call arguments in the environment marshalling code, compared by name with the field/parameter it initialises (anti-swap rule); ownership rule for the malloc'ed C objects",
+        text="What each introspection jet returns is computed in C from marshalled data and is not decided. Decided are necessary "
+             "conditions on the marshalling code (src/jet/elements/c_env.rs, environment.rs, simplicity-sys c_env): (wiring) in each of "
+             "the 12 struct literals no two same-typed fields are cross-wired - a field is initialised from the source whose access "
+             "path carries its own name rather than its sibling's (amount / inflation_keys, the two range proofs, asset / nonce, ...), "
+             "also argument by argument inside one initialiser; the rule fires only when the exchanged assignment matches the names "
+             "strictly better; (args) same for same-typed arguments between the marshalling functions; (alloc) ElementsEnv::new builds "
+             "the environment from new_tx(tx, utxos), new_tap_env(control_block, script_cmr), the genesis hash and the index, "
+             "c_set_txEnv receives them in the C parameter order, and Drop for CTxEnv frees exactly the two malloc'ed objects once each. "
+             "Struct layouts and extern signatures are C14. Field values, annex detection, serialisation of confidential fields and "
+             "pointer lifetimes are not decided.",
+        note=TRUST + "Names are the only static witness of which same-typed datum is which; a consistent renaming of both a field and "
+             "its source leaves the verdict unchanged.",
+        design="3/C15"),
     "C16": dict(
         technique="call-graph parametricity check + in-place-mutation provenance rule on MIR",
         text="Decides the root-equality sentence by parametricity: cmr(), commit() and satisfy() build the program through the "
@@ -190,7 +205,6 @@ CLAIMED = {
 NOT_APPLICABLE = {
     "C06": "agreement of two interpreters' runtime verdicts over all programs/witnesses/environments: no structural clause beyond those decided under C05/C14",
     "C13": "exact coding of naturals/bit streams is numeric round-trip equality; only its guard clauses are structural and those are decided under C02",
-    "C15": "'each jet returns the supplied field' is data marshalling through C whose truth is in values; extern signatures are covered by C14",
     "C18": "index bookkeeping of PostOrderIter over all DAG shapes is an algorithmic invariant of a stateful loop; a static proxy would be a frozen fragment",
     "C19": "sufficiency/minimality of a piecewise-affine padding formula is arithmetic over all costs and stack sizes",
 }
